@@ -169,6 +169,14 @@ impl Wallet {
     /// [private_key - 32 bytes]
     /// [public_key - 33 bytes]
     pub fn deserialize_from_disk(&mut self, bytes: &[u8]) {
+        if bytes.len() < 65 {
+            // a truncated wallet file cannot hold a key pair: keep the keys we have
+            warn!(
+                "wallet data of {:?} bytes is too short to contain a key pair. ignoring it",
+                bytes.len()
+            );
+            return;
+        }
         self.private_key = bytes[0..32].try_into().unwrap();
         self.public_key = bytes[32..65].try_into().unwrap();
     }
